@@ -469,7 +469,7 @@ def call_line(c):
 
 
 def call_show(c):
-    s = lambda v: "" if v is None else " c=%r" % v
+    s = lambda v: "" if v is None else " value=%r" % v      # new value of the constant c (points family: new level of the table p)
     return "run-step%s" % s(c[1]) if c[0] == "step" else "run-steps %d%s" % (c[1], s(c[2])) if c[0] == "steps" else "stream-steps%s" % s(c[1])
 
 
@@ -560,7 +560,8 @@ def run_case(case, facts):
             key = ("session-dt-ignored" if api.get("dt") != case["dt"] else
                    "session-clock-drift" if g.startswith("r") else "session-grid")
         else:
-            key = "settings-leak-one-step-back" if any(c[-1] is not None for c in case["calls"]) else "session-values"
+            key = ("step-points-settings" if case.get("family") == "points" else "settings-leak-one-step-back") \
+                if any(c[-1] is not None for c in case["calls"]) else "session-values"
         problems.append((key, "session step %d reports %s, expected %s" % (j, g, r), {"step": j, "got": g, "expected": r}))
     elif api["byeq"] != ";".join("%d=" % e + ",".join("%s:%s" % (r.split(":")[0], r.split(":")[1].split(",")[i]) for r in ref)
                                  for i, e in enumerate(case["eqs"])) and ref:
@@ -606,12 +607,17 @@ def run(chk):
         "hand-written channel model lean/Bptk/Core/C09.lean over an abstract causal per-step simulator; tied to the code by three behavioural "
         "probes and by the differential run of Drive/C09 (simulator instantiated with the linear family c, f=max(0,c*a), s'=f, k=s*b+c) "
         "against run_scenarios, the session API and the Flask test client",
+        "memo-level session (wave 2): Core/C09 `mstep` runs C08's model of Model.memoize (`evalK`) with definitions rebound by step settings, a memo that is never "
+        "reset and the probed finalisation set; the driver runs it next to the abstract session on both families (linear, look-back) and its log must equal the real "
+        "session results bit for bit (`mresults`); theorem memo_session_ideal derives 'settings from step k on, nothing before' from these mechanics",
         "labels are compared bit-exactly with the batch index of the same scenario; that the batch index itself is the exact grid is C05's theorem",
         "Flask test client instead of a socket; pandas frame / json / jsonpickle encodings observed only through the compared results",
     ]
     chk.assumptions = ["the simulator is causal (values at t_k depend on settings in force at t_i, i <= k): true for SD models, whose references go to t or t-dt",
-                       "run specs with 1/dt integral, stop = start + n*dt, stop > 0; settings = constants (points settings are not exercised)",
-                       "one SD scenario per session"]
+                       "run specs with 1/dt integral, stop = start + n*dt, stop > 0",
+                       "settings = constants (in the Lean model); `points` passed with a step and sessions over two scenarios are exercised on the real channels "
+                       "(API vs REST) and against the reference only, not by the driver",
+                       "the look-back `delay(g, 2*dt)` is rendered in C08's expression language as two one-step delays (auxiliary g1 = delay(g, dt)); values coincide"]
     rng = chk.rng.fork("c09")
     cases = fixed_cases() + [gen_case(rng) for _ in range(220 if chk.quick else 3000)]
     req, exp, owner = ["cfg %d %d %d %d" % (facts["dt"], facts["clock"], facts["final"], facts["state"])], ["ok"], [None]
@@ -638,6 +644,9 @@ def run(chk):
     chk.cov["input_distribution"] = dist
     chk.cov["skipped_run_specs_hit_by_C05_until_plus_dt"] = skipped
     chk.notes["sim_bound_exact (C05)"] = SIM_BOUND_OK
+    chk.cov["rule_wave2"] = ("families: linear, look-back (flow = delay(g, 2dt) of a never-requested auxiliary; driver + memo-level session), points (step settings carry a points "
+                             "table; reference + channels); a fifth of the cases additionally run the script in a two-scenario session (API and REST) against each scenario's own "
+                             "single-scenario reference; call lists may continue after a completed stream-steps (replies: Stoptime reached)")
     chk.cov["rule"] = ("34 fixed cases (5 dt values x 4 partitions of a whole run without settings; 7 requested-equation sets x 2 dt with a constant "
                        "changed at the fourth step) + seeded random cases: model coefficients x (start, dt, n) x requested set x 1..6 calls "
                        "(run-step / run-steps m / stream-steps, each with or without a new value of c); per case 3 batch formats, REST run, "
@@ -655,7 +664,9 @@ def run(chk):
     # ---- decide
     texts = {"session-dt-ignored": "a session on a scenario with dt != 1 steps with dt = 1.0",
              "session-clock-drift": "the session clock is advanced by bare float addition: labels leave the batch grid",
-             "settings-leak-one-step-back": "a constant changed with step k is used for t_(k-1) when its dependents there were not memoised"}
+             "settings-leak-one-step-back": "a constant changed with step k is used for t_(k-1) when its dependents there were not memoised",
+             "step-points-settings": "a points table passed with step k does not act exactly on the steps from k on",
+             "multi-scenario-session": "in a session over two scenarios a scenario does not report what it reports alone with the same settings script"}
     for key, (case, text, detail) in found.items():
         small = shrink_case(case, facts, key) if key != "channel-error" else case
         if small is not case:
